@@ -170,6 +170,28 @@ def wl_zero_fingerprint(ctx, rng, case):
     case.nontrivial = ex.decisions > 0 or stats["capacity_changes"] > 0
 
 
+def wl_long(ctx, rng, case):
+    """long-lived tables: 40-120 operations on tiny auto-expanding tables, so the table expands several times in a row, interleaved with
+    removals, explicit expansions and reloads; a handful of random resolutions of the eviction choices per history (no DFS)"""
+    cfg = ck.gen_cfg(rng)
+    cfg.auto_expand = True
+    cfg.capacity = rng.choice([1, 2, 3])
+    cfg.bucket_size = rng.choice([1, 2, 2, 3])
+    cfg.max_swaps = rng.choice([2, 3, 5, 8])
+    keys = ck.gen_keys(rng, cfg, rng.randint(20, 60))
+    if len(keys) < 10:
+        return
+    ops = ck.gen_history(rng, keys, rng.randint(40, 120), p_remove=0.2, p_expand=0.03, p_reload=0.04)
+    case.desc = dict(cfg.desc(), n_keys=len(keys), kind="long history, several expansions")
+    for op in ops[:60]:
+        case.op(*op)
+    ex, stats = explore_case(ctx, rng, case, cfg, keys, ops, 1, extra=4 if ctx.tier == "quick" else 12)
+    ctx.maximum("max_capacity_changes_in_one_history", stats["capacity_changes"] // max(1, ex.runs + ex.sampled))
+    if stats["capacity_changes"] >= 3 * (ex.runs + ex.sampled):
+        ctx.count("histories_with_three_or_more_expansions")
+    case.nontrivial = stats["capacity_changes"] > 0
+
+
 def finish(cov, merged, tier):
     c = merged["counters"]
     cov["decision_sequences_explored"] = int(c.get("resolutions_executed", 0))
@@ -191,10 +213,11 @@ PROP = Prop(
         Workload("expansion", wl_expansion, quick=120, thorough=2500),
         Workload("zero_fingerprint", wl_zero_fingerprint, quick=80, thorough=2000),
         Workload("explore", wl_explore, quick=200, thorough=5000),
+        Workload("long", wl_long, quick=60, thorough=3000),
     ],
     assumptions=["fingerprint model uses an independent FNV-1a (ASCII/bytes keys); keys whose raw fingerprint is 0 (the empty-slot marker) appear only in the zero_fingerprint workload, whose histories contain no removals (how 0 is remapped is the library's choice)",
                  "after a failed add the presence of the NEW key is taken from observation (the statement only protects the keys present before)",
                  "scripted stdlib random: decisions default to 0 beyond the explored prefix"],
     finish=finish,
-    required=["probes", "resolutions_executed", "decisions_taken", "failed_adds", "capacity_changes", "histories_explored_exhaustively_with_choices", "zero_fingerprint_histories_with_expansion"],
+    required=["probes", "resolutions_executed", "decisions_taken", "failed_adds", "capacity_changes", "histories_explored_exhaustively_with_choices", "zero_fingerprint_histories_with_expansion", "histories_with_three_or_more_expansions"],
 )
